@@ -68,6 +68,9 @@ func cmdRun(args []string) {
 		fmt.Fprintln(os.Stderr, err)
 		os.Exit(2)
 	}
+	for _, d := range ld.Dropped {
+		fmt.Fprintln(os.Stderr, "NOTE: harness file left out (does not compile against this tree):", d)
+	}
 	p := ld.Pkgs["ergo.services/ergo/"+*pkg]
 	if p == nil {
 		fmt.Fprintln(os.Stderr, "package not loaded")
